@@ -120,7 +120,8 @@ def _invert_fn(tree, repo):
 def _invert_print(v):
     if isinstance(v, str):
         return v
-    tbl = "[" + "; ".join(f"({a}, {b})" for a, b in v["table"]) + "]" if v["table"] else "([] : list (cmpop * cmpop))"
+    # constructors are qualified: `In` would otherwise be read as List.In inside Generated/Tables.v
+    tbl = "[" + "; ".join(f"(Types_Kernels.{a}, Types_Kernels.{b})" for a, b in v["table"]) + "]" if v["table"] else "([] : list (cmpop * cmpop))"
     return ("{| iv_table := %s; iv_default := %s; iv_chains := %s; iv_parens := %s |}"
             % (tbl, v["default"], "true" if v["chains"] else "false", "true" if v["parens"] else "false"))
 
